@@ -53,6 +53,12 @@ impl<T: Hash + Eq + Clone> TopoSort<T> {
         self.top.is_empty()
     }
 
+    /// verification hook: every item currently in the sort (pending), in insertion order
+    #[cfg(capy_verif)]
+    pub fn verif_items(&self) -> Vec<&T> {
+        self.top.keys().collect()
+    }
+
     /// Registers a dependency
     ///
     /// `parent` depends upon `child`.
